@@ -9,7 +9,7 @@ EXPLANATION = ("Theorems over all operation lists and all interleavings of the s
                "answer.go's Promise (explicit mu, the promise states, ongoingCalls/callsStopped, proxy client table, "
                "clientsRefs, the promised client hooks); the model is tied to the code by running the extracted model and the "
                "real Promise on the same histories inside testing/synctest bubbles.")
-TRUSTED = ["model coq/Promise/Promise.v hand-written from answer.go/capability.go; lock acquisition is merged with the "
+TRUSTED = ["models coq/Promise/Promise.v and PromiseJoin.v hand-written from answer.go/capability.go; lock acquisition is merged with the "
            "critical section it opens (reduction argued in the file)"]
 MODELLED = ["sync.Mutex and channels (usual primitives)", "context cancellation is not modelled (calls use a context that is "
             "not cancelled)", "reference counts of the result capabilities (C10)"]
@@ -31,9 +31,11 @@ def classify(run, case, impl, model):
     k = 0
     while k < len(a) and k < len(b) and a[k] == b[k]:
         k += 1
-    ops = case.split()[1:]
+    toks = case.split()
+    kind = toks[0]
+    ops = toks[2:] if kind == "join" else toks[1:]
     op = ops[k][0] if k < len(ops) else "end"
-    return "seq/impl=%s/model=%s/at=%s" % (cls(impl), cls(model), op)
+    return "%s/impl=%s/model=%s/at=%s" % (kind, cls(impl), cls(model), op)
 
 
 def violates(run, case, impl, model):
@@ -42,7 +44,7 @@ def violates(run, case, impl, model):
     # delivered twice, or a delivery goes elsewhere than the model's (exactly-once destination).
     return True
 
-LEVEL_TEXT = ("Proved for all op lists and all interleavings of the single-promise model: resolve_once, pipelined_exactly_once, client_idempotent (mu free, same proxy), no_stuck (deadlock freedom), waiters_released, result_read_alive; refuted on earlier code variants: client_idempotent (F11), no_stuck (resolve deadlock), result lifetime (withdrawn repair). Not proved: proxy_clients_resolved_and_released (correspondence only). Join / joined chains not modelled. Model tied to answer.go by synctest histories.")
-LEVEL_NOTE = "Level other: one stated theorem missing and Join (in the property quantifier) is not modelled. Context cancellation not modelled. See docs/C11.md."
+LEVEL_TEXT = ("Proved for all op lists and all interleavings of the single-promise model: resolve_once, pipelined_exactly_once, client_idempotent (mu free, same proxy), no_stuck, waiters_released, proxy_clients_resolved_and_released, result_read_alive; on the model with Join (joined chains): exactly-once count part. Refuted on earlier/seeded code variants: F11, resolve deadlock, result lifetime, Join nil table (F11c), seeded C11-3. Model tied to answer.go by synctest histories (sequenced, with Join, and concurrent launch groups checked against the set of outcomes the model allows).")
+LEVEL_NOTE = "Level other: on the joined-chain model only the count part of exactly-once is proved (no_stuck, destinations, proxies are proved for a single promise). Context cancellation not modelled. See docs/C11.md."
 TECHNIQUE = "Coq proof over an executable small-step model + extracted-model/implementation differential run under synctest"
 DESIGN_REF = "DESIGN.md section 6, C11"
